@@ -1,6 +1,10 @@
 // Scheduled correspondence harness for promise.Once and memo.MemoizeFunc (C16).
 //
-// once   events:  [1 c]    Resolve(ctx) in a new actor (c=1: ctx already cancelled)
+// once   events:  [1 c]    Resolve(ctx) in a new actor (c=1: ctx already cancelled).  The FLAVOUR of the context is derived from
+//                          the number n of Resolve events before this one in the history (hctx.Flavour(n): n%4 = 0, 2 plain
+//                          WithCancel; 1 ends like a deadline, Err() == DeadlineExceeded; 3 cancelled with a cause, Err() ==
+//                          Canceled and Cause == hctx.ErrCause).  It is not part of the event: Once returns the literal
+//                          context.Canceled whatever the flavour, so the model does not need it; a replay reproduces it.
 //                 [3 i ch] let actor i run from its gate (caller at promise site 1; callback goroutine at site 2 / 3 / 0);
 //                          ch is written by the harness after the step: 1 = the caller's context was cancelled before the
 //                          step and it returned Canceled (the select choice when both Await cases were ready)
@@ -13,6 +17,11 @@
 //                 6 c goroutine inside the callback (c=1 its ctx was cancelled on entry)   7 0 at gate 2   8 0 at gate 3   9 0 finished
 //                 10 0 goroutine parked inside Promise.SetResult between the swap of isDone and the publication (site 0)
 //                 11 0 the call panicked (recovered by the actor wrapper)
+//                 12 0 returned (_, context.DeadlineExceeded)   13 0 returned (_, hctx.ErrCause): the caller was handed its
+//                          context's own error / cancellation cause instead of context.Canceled (the callback never returns
+//                          these errors; the model never produces these codes; clause 10)
+//                 an error that is none of context.Canceled / DeadlineExceeded / ErrCause / a callback's error: 5 p with
+//                          error id 0 (clause 3)
 // memo   events:  [1] call the memoized function in a new actor
 //                 [2 i k] fn running on actor i returns k: 0 (i+1, nil), k>=1 the value k-1 together with error i+1
 //                 [3 n w] n new actors call it at the same moment (they race for real); w (written by the harness) = which one entered fn
@@ -32,6 +41,7 @@ import (
 	"github.com/aperturerobotics/util/memo"
 	"github.com/aperturerobotics/util/promise"
 	"verif/harness/ctl"
+	"verif/harness/hctx"
 	"verif/harness/hist"
 )
 
@@ -47,7 +57,8 @@ func (e *idErr) Error() string { return fmt.Sprintf("err%d", e.id) }
 
 var errFree = errors.New("teardown")
 
-// result of a call: code 3 value / 4 Canceled / 5 (value, error id) packed as value<<20 + id
+// result of a call: code 3 value / 4 context.Canceled (the identical error value) / 12 context.DeadlineExceeded /
+// 13 hctx.ErrCause / 5 (value, error id) packed as value<<20 + id (id 0: any other error)
 type result struct {
 	code, val uint64
 }
@@ -58,6 +69,10 @@ func classify(v int, err error) result {
 		return result{3, uint64(v)}
 	case err == context.Canceled:
 		return result{4, 0}
+	case err == context.DeadlineExceeded:
+		return result{12, 0}
+	case err == hctx.ErrCause:
+		return result{13, 0}
 	default:
 		var ie *idErr
 		if errors.As(err, &ie) {
@@ -68,10 +83,13 @@ func classify(v int, err error) result {
 }
 
 type cdata struct {
-	cancel    context.CancelFunc
+	cancel    func() // ends the context the way its flavour prescribes
+	flav      int    // 0 plain WithCancel, 1 deadline-like, 2 cancelled with a cause
 	cancelled bool
 	res       result
 }
+
+var flavName = [3]string{"plain", "deadline", "cause"}
 
 type gdata struct {
 	entryCanc bool
@@ -86,6 +104,7 @@ type sys struct {
 	w    *hist.W
 	o    *promise.Once[int]
 	hook func(site int, obj any)
+	nres int // Resolve events so far: picks the context flavour of the next one
 	// statistics of this history
 	entries    int
 	succeeded  bool
@@ -182,8 +201,9 @@ func (s *sys) status() []uint64 {
 func (s *sys) exec(ev []uint64) (obs []uint64, ok bool) {
 	switch {
 	case ev[0] == 1 && len(ev) == 2 && ev[1] <= 1:
-		ctx, cancel := context.WithCancel(context.Background())
-		d := &cdata{cancel: cancel}
+		ctx, cancel, flav := hctx.Flavour(context.Background(), s.nres)
+		s.nres++
+		d := &cdata{cancel: cancel, flav: flav}
 		if ev[1] == 1 {
 			d.cancelled = true
 			cancel()
@@ -246,6 +266,8 @@ func (s *sys) exec(ev []uint64) (obs []uint64, ok bool) {
 			// error of its own, while another caller with a live context is waiting for this invocation
 			if st := a.Data.(*gdata).starter; s.c.Acts[st].Data.(*cdata).cancelled {
 				s.w.Count("once.cb_error_with_starter_cancelled", 1)
+				// the goroutine's "ctx.Err() != nil => SetResult(context.Canceled)" branch, by flavour of the captured context
+				s.w.Count("once.cb_error_with_starter_cancelled.flavour."+flavName[s.c.Acts[st].Data.(*cdata).flav], 1)
 				for _, b := range s.c.Acts {
 					if b.Kind == kCaller && !b.Done() && !b.Parked() && !b.Data.(*cdata).cancelled {
 						s.w.Count("once.cb_error_with_starter_cancelled_and_live_waiter", 1)
@@ -365,8 +387,23 @@ func (s *sys) count(ev, obs []uint64, prev []uint64) {
 	if ev[0] == 5 {
 		s.w.Count(fmt.Sprintf("once.ev.cb_return.%d", min(ev[2], 3)), 1)
 	}
-	if ev[0] == 1 && ev[1] == 1 {
-		s.w.Count("once.ev.resolve.precancelled", 1)
+	if ev[0] == 1 {
+		fl := flavName[s.c.Acts[len(s.c.Acts)-1].Data.(*cdata).flav]
+		s.w.Count("once.ev.resolve.flavour."+fl, 1)
+		if ev[1] == 1 {
+			s.w.Count("once.ev.resolve.precancelled", 1)
+			s.w.Count("once.ev.resolve.precancelled.flavour."+fl, 1)
+		}
+	}
+	if ev[0] == 4 {
+		i := int(ev[1])
+		fl := flavName[s.c.Acts[i].Data.(*cdata).flav]
+		switch {
+		case 2*i < len(prev) && prev[2*i] == 2:
+			s.w.Count("once.cancel_while_blocked_in_await.flavour."+fl, 1)
+		case 2*i < len(prev) && prev[2*i] == 1:
+			s.w.Count("once.cancel_at_gate.flavour."+fl, 1)
+		}
 	}
 	if ev[0] == 3 && ev[2] == 1 {
 		s.w.Count("once.step_of_cancelled_caller_at_gate", 1)
@@ -397,6 +434,15 @@ func (s *sys) count(ev, obs []uint64, prev []uint64) {
 		case 4:
 			if i >= len(prev) || prev[i] != 4 {
 				s.w.Count("once.returned_canceled", 1)
+				s.w.Count("once.returned_canceled.flavour."+flavName[s.c.Acts[i/2].Data.(*cdata).flav], 1)
+			}
+		case 12:
+			if i >= len(prev) || prev[i] != 12 {
+				s.w.Count("once.returned_deadline_exceeded", 1)
+			}
+		case 13:
+			if i >= len(prev) || prev[i] != 13 {
+				s.w.Count("once.returned_cancel_cause", 1)
 			}
 		case 5:
 			if i >= len(prev) || prev[i] != 5 {
